@@ -1,0 +1,14 @@
+//go:build !verif
+
+// Package verifhook is instrumentation for an external verification harness.
+// Without the build tag "verif" every hook is an empty stub.
+package verifhook
+
+// Ev is a no-op without the verif build tag.
+func Ev(kind string, y, a int) {}
+
+// ReconPlanes is a no-op without the verif build tag.
+func ReconPlanes(y, u, v []byte, yStride, uvStride, w, h int) {}
+
+// PoolHit is a no-op without the verif build tag.
+func PoolHit(name string) {}
